@@ -148,16 +148,18 @@ fn ref_utf8_valid(b: &[u8; 4], l: usize) -> bool {
     true
 }
 
-//@ props=C06 tier=quick timeout=1800 mem=24 model=0 name=c06_string_roundtrip_2
-//@ functions=TryFrom<Vec<u8>> for OptionValueString, From<OptionValueString> for Vec<u8>, String::from_utf8 (std's real validator)
-//@ bounds=every byte string of length 0..2 (symbolic length and bytes)
+//@ props=C06 tier=quick timeout=1800 mem=16 model=0 name=c06_string_roundtrip_3
+//@ functions=TryFrom<Vec<u8>> for OptionValueString, From<OptionValueString> for Vec<u8>, String::from_utf8
+//@ bounds=every byte string of length 0..3 (symbolic length and bytes)
 //@ what=well-formed UTF-8 (RFC 3629, checked by an independent case table) is accepted and converts back to the same bytes; anything else is rejected with an error
-//@ outside=strings longer than 2 bytes (3 in the thorough tier); the text of the error message (core::fmt::write stubbed)
+//@ assumes=core::str::from_utf8 is replaced by the byte-loop RFC 3629 model (std's word-at-a-time validator ran out of memory at 2 bytes); what is decided is the wrapper: accept/reject follows the validator and accepted bytes come back unchanged
+//@ outside=strings longer than 3 bytes (4 in the thorough tier); the text of the error message (core::fmt::write stubbed)
 macro_rules! c06_string {
     ($name:ident, $maxl:expr) => {
 #[kani::proof]
 #[kani::unwind(7)]
 #[kani::stub(core::fmt::write, crate::verif_harness::stub_write)]
+#[kani::stub(core::str::from_utf8, crate::verif_harness::model_from_utf8)]
 fn $name() {
     let b: [u8; 4] = kani::any();
     let l: usize = kani::any();
@@ -186,10 +188,11 @@ fn $name() {
 }
     };
 }
-c06_string!(c06_string_roundtrip_2, 2);
-
-//@ props=C06 tier=thorough timeout=3000 mem=40 model=0 name=c06_string_roundtrip_3
-//@ functions=TryFrom<Vec<u8>> for OptionValueString, From<OptionValueString> for Vec<u8>, String::from_utf8 (std's real validator)
-//@ bounds=every byte string of length 0..3
-//@ what=as c06_string_roundtrip_2; reaches three-byte code points, surrogates and overlong three-byte forms
 c06_string!(c06_string_roundtrip_3, 3);
+
+//@ props=C06 tier=thorough timeout=3000 mem=24 model=0 name=c06_string_roundtrip_4
+//@ functions=TryFrom<Vec<u8>> for OptionValueString, From<OptionValueString> for Vec<u8>, String::from_utf8
+//@ bounds=every byte string of length 0..4
+//@ what=as c06_string_roundtrip_3; reaches four-byte code points
+//@ assumes=core::str::from_utf8 is replaced by the byte-loop RFC 3629 model
+c06_string!(c06_string_roundtrip_4, 4);
